@@ -212,6 +212,9 @@ def gen_case(seed, prop, idx):
          "C16": dict(ins=50, read=20, get=8, rm=8, upd=8, drop=1, rmall=1, reidx=3, reopen=1)}[prop]
     n = r.randint(3, 9)
     ops = fam_hist.gen_history(g, n, True, w, 0.03)
+    if prop in ("C04", "C12", "C13", "C16") and idx % 40 == 7:
+        # one insert_multiple beyond any batch / chunk threshold, somewhere in the history
+        ops.insert(r.randrange(len(ops) + 1), fam_hist.bulk_insert(g, r.randint(1001, 1100)))
     ops = [_no_field_noop(o) for o in ops]
     ops = [o for o in ops if not _has_sentinel_tag_value(o)]     # C05's known finding, not C04's subject
     if case.get("enc") == "latin-1":
@@ -427,6 +430,14 @@ def analyse_case(case, prop, tier, root):
         rnd = random.Random(hash(json.dumps(case, sort_keys=True)) & 0xFFFFFFF)
         cand = [i for i, r in enumerate(recs) if r["name"] in MUTATING and r["trace"]]
         rnd.shuffle(cand)
+        cand.sort(key=lambda i: len(recs[i]["trace"]) <= 1000)       # an operation with thousands of calls first
+
+        def boundaries(n):
+            """every boundary of an ordinary operation; a spread of them for one with thousands of calls"""
+            if n <= 300:
+                return list(range(0, n + 3))
+            step = max(1, n // 24)
+            return sorted(set(list(range(0, 14)) + list(range(14, n, step)) + list(range(n - 6, n + 3))))
         for i in cand[: (2 if tier == "quick" else 5)]:
             rec = recs[i]
             old = recs[i - 1]["contents"] if i > 0 else []
@@ -437,7 +448,7 @@ def analyse_case(case, prop, tier, root):
             if prop == "C12":
                 if not case.get("flush", True):
                     continue
-                for k in range(0, n + 3):
+                for k in boundaries(n):
                     code, dec = crash_trial(case, i, k, root)
                     stats["crash_trials"] += 1
                     if code == 0 and k > n + 40:
@@ -457,8 +468,8 @@ def analyse_case(case, prop, tier, root):
                         break
             else:
                 for after in (False, True):
-                    k = 0
-                    while k < 400:
+                    ks = boundaries(n) if n > 300 else range(0, 400)
+                    for k in ks:
                         obs = fault_trial(case, i, k, after, root)
                         if not obs.get("injected"):
                             break
@@ -467,7 +478,6 @@ def analyse_case(case, prop, tier, root):
                         if bad:
                             extra.append(("impl-vs-spec", ["C13"], i, bad, dict(call=k, after=after)))
                             break
-                        k += 1
                     if extra:
                         break
             if extra:
